@@ -218,7 +218,16 @@ func init() {
 					if _, ok := addr.(*ssa.Alloc); ok {
 						return
 					}
-					for _, rt := range e.memRoots(fn, addr, 0, 0, svc, map[ssa.Value]bool{}) {
+					// the address is either computed from a variable (field / element of it) or is itself a pointer VALUE that
+					// was loaded or extracted from somewhere (`*k.flag = true` with k.flag a *bool): writing through such a
+					// value is one dereference
+					d0 := 0
+					switch addr.(type) {
+					case *ssa.FieldAddr, *ssa.IndexAddr, *ssa.Global:
+					default:
+						d0 = 1
+					}
+					for _, rt := range e.memRoots(fn, addr, d0, 0, svc, map[ssa.Value]bool{}) {
 						bad := false
 						switch rt.kind {
 						case "global":
@@ -256,7 +265,7 @@ func init() {
 							check(in, x.Map, "map update")
 						case ssa.CallInstruction:
 							// methods of sync / atomic types: shared mutable memory by construction
-							if cal := x.Common().StaticCallee(); cal != nil && cal.Pkg != nil {
+							if cal := Devirt(x.Common()); cal != nil && cal.Pkg != nil {
 								p := cal.Pkg.Pkg.Path()
 								if p == "sync" || p == "sync/atomic" {
 									r.Bad(fk, "call of "+p+"."+cal.Name(), "synchronisation primitive in state-machine code: shared mutable process memory", nil, r.P(in))
@@ -297,6 +306,12 @@ func init() {
 							if _, isStruct := n.Underlying().(*types.Struct); isStruct {
 								bad = "a pointer to the module's own mutable struct " + typeKey(n)
 							}
+						}
+						// a pointer to a plain value (*bool, *int, *string, *[]T): a mutable cell shared by every copy of the
+						// service value
+						switch u.Elem().Underlying().(type) {
+						case *types.Basic, *types.Slice, *types.Map, *types.Array:
+							bad = "a pointer to a plain value (" + types.TypeString(ft, func(p *types.Package) string { return p.Name() }) + ")"
 						}
 					}
 					if n, ok := ft.(*types.Named); ok && n.Obj().Pkg() != nil && (n.Obj().Pkg().Path() == "sync" || n.Obj().Pkg().Path() == "sync/atomic") {
